@@ -134,7 +134,124 @@ class _HoistReturn(ast.NodeTransformer):
         return node
 
 
-KINDS = {"swap_branches": _SwapBranches, "ifexp_to_if": _IfExpToIf, "if_to_ifexp": _IfToIfExp, "flip_compare": _FlipCompare, "hoist_return": _HoistReturn}
+def _exits(stmts):
+    return bool(stmts) and isinstance(stmts[-1], (ast.Return, ast.Raise, ast.Continue, ast.Break))
+
+
+class _DropElseAfterExit(ast.NodeTransformer):
+    """if c: ...; return/raise/continue/break  else: B   ->   if c: ...exit ; B"""
+
+    def _block(self, stmts):
+        out = []
+        for st in stmts:
+            if isinstance(st, ast.If) and st.orelse and _exits(st.body):
+                out.append(ast.If(test=st.test, body=st.body, orelse=[]))
+                out.extend(st.orelse)
+            else:
+                out.append(st)
+        return out
+
+    def generic_visit(self, node):
+        super().generic_visit(node)
+        for f in ("body", "orelse", "finalbody"):
+            v = getattr(node, f, None)
+            if isinstance(v, list) and v and isinstance(v[0], ast.stmt):
+                setattr(node, f, self._block(v))
+        return node
+
+
+class _AddElseAfterExit(ast.NodeTransformer):
+    """if c: ...exit ; REST   ->   if c: ...exit  else: REST"""
+
+    def _block(self, stmts):
+        for k, st in enumerate(stmts):
+            if isinstance(st, ast.If) and not st.orelse and _exits(st.body) and k + 1 < len(stmts):
+                rest = self._block(stmts[k + 1:])
+                return stmts[:k] + [ast.If(test=st.test, body=st.body, orelse=rest)]
+        return stmts
+
+    def generic_visit(self, node):
+        super().generic_visit(node)
+        for f in ("body", "orelse", "finalbody"):
+            v = getattr(node, f, None)
+            if isinstance(v, list) and v and isinstance(v[0], ast.stmt):
+                setattr(node, f, self._block(v))
+        return node
+
+
+class _EarlyContinue(ast.NodeTransformer):
+    """for ...: PRE; if c: BODY     ->   for ...: PRE; if not c: continue; BODY   (the if is the loop's last statement, no else)"""
+
+    def visit_For(self, node):
+        self.generic_visit(node)
+        if node.body and isinstance(node.body[-1], ast.If) and not node.body[-1].orelse and not node.orelse:
+            last = node.body[-1]
+            test = last.test.operand if isinstance(last.test, ast.UnaryOp) and isinstance(last.test.op, ast.Not) else ast.UnaryOp(op=ast.Not(), operand=last.test)
+            node.body = node.body[:-1] + [ast.If(test=test, body=[ast.Continue()], orelse=[])] + last.body
+        return node
+
+
+class _HoistArgs(ast.NodeTransformer):
+    """x = f(g(a), ...)  ->  _arg0 = g(a); x = f(_arg0, ...)   (first positional argument, when it is itself a call;
+    statement-level assignments only, so evaluation order is kept)"""
+
+    def __init__(self):
+        self.n = 0
+
+    def _block(self, stmts):
+        out = []
+        for st in stmts:
+            v = st.value if isinstance(st, (ast.Assign, ast.Return)) else None
+            if isinstance(v, ast.Call) and v.args and isinstance(v.args[0], ast.Call) and not isinstance(v.func, ast.Call) \
+                    and not any(isinstance(n, (ast.Lambda, ast.ListComp, ast.GeneratorExp, ast.DictComp, ast.SetComp, ast.NamedExpr)) for n in ast.walk(v)) \
+                    and isinstance(v.func, (ast.Name, ast.Attribute)) and (isinstance(v.func, ast.Name) or isinstance(v.func.value, ast.Name)):
+                self.n += 1
+                nm = f"_arg{self.n}"
+                out.append(ast.Assign(targets=[ast.Name(id=nm, ctx=ast.Store())], value=v.args[0]))
+                v.args[0] = ast.Name(id=nm, ctx=ast.Load())
+            out.append(st)
+        return out
+
+    def generic_visit(self, node):
+        super().generic_visit(node)
+        for f in ("body", "orelse", "finalbody"):
+            v = getattr(node, f, None)
+            if isinstance(v, list) and v and isinstance(v[0], ast.stmt):
+                setattr(node, f, self._block(v))
+        return node
+
+
+class _TupleAssign(ast.NodeTransformer):
+    """a = X; b = Y  ->  a, b = X, Y   (two consecutive assignments to plain names, Y not mentioning a, X and Y without calls)"""
+
+    def _block(self, stmts):
+        out, k = [], 0
+        while k < len(stmts):
+            a = stmts[k]
+            b = stmts[k + 1] if k + 1 < len(stmts) else None
+            def simple(s):
+                return isinstance(s, ast.Assign) and len(s.targets) == 1 and isinstance(s.targets[0], ast.Name) \
+                    and not any(isinstance(n, (ast.Call, ast.Lambda, ast.ListComp, ast.Yield, ast.Await)) for n in ast.walk(s.value))
+            if b is not None and simple(a) and simple(b) and a.targets[0].id != b.targets[0].id \
+                    and not any(isinstance(n, ast.Name) and n.id == a.targets[0].id for n in ast.walk(b.value)):
+                out.append(ast.Assign(targets=[ast.Tuple(elts=[a.targets[0], b.targets[0]], ctx=ast.Store())], value=ast.Tuple(elts=[a.value, b.value], ctx=ast.Load())))
+                k += 2
+            else:
+                out.append(a)
+                k += 1
+        return out
+
+    def generic_visit(self, node):
+        super().generic_visit(node)
+        for f in ("body", "orelse", "finalbody"):
+            v = getattr(node, f, None)
+            if isinstance(v, list) and v and isinstance(v[0], ast.stmt):
+                setattr(node, f, self._block(v))
+        return node
+
+
+KINDS = {"drop_else_after_exit": _DropElseAfterExit, "add_else_after_exit": _AddElseAfterExit, "early_continue": _EarlyContinue,
+         "hoist_args": _HoistArgs, "tuple_assign": _TupleAssign, "swap_branches": _SwapBranches, "ifexp_to_if": _IfExpToIf, "if_to_ifexp": _IfToIfExp, "flip_compare": _FlipCompare, "hoist_return": _HoistReturn}
 
 
 def make(kind, src_root="/repo"):
